@@ -402,6 +402,8 @@ func nsWalkRules(c *Ctx, prop string) (*report.Result, error) {
 		checkTranslatedBlobProvenance(c, res, "O12.10")
 		res.RuleDoc["O12.11"] = "every blob of a repeated field is looked into: no path through translateDataBlobs' loop goes on to the next element without calling translateOneDataBlob"
 		checkEveryBlobTranslated(c, res, "O12.11")
+		res.RuleDoc["O12.15"] = "only a real intra-proxy stream goes untranslated: common.IsIntraProxy answers true only when the header equals the marker WithIntraProxyHeaders writes - the interceptor skips the translating wrapper for such streams, so a looser test lets any peer switch translation off for its replication stream with a header value of its choosing"
+		checkIntraProxyMarkerExact(c, res, "O12.15")
 		res.RuleDoc["O12.13"] = "a message is mapped once on its way through a deployment: in InterceptStream the translating wrapper is put around a stream only on the false side of IsIntraProxy(stream context) and intra-proxy streams are handed to the handler as they are - both listeners of a multi-node deployment carry the translation interceptor, so a message that crosses an intra-proxy hop would be mapped twice (a swapped pair comes back untranslated, a chain lands on the wrong name)"
 		checkIntraProxyStreamsNotTranslated(c, res, "O12.13")
 		res.RuleDoc["O12.14"] = "a decoded history blob is always handed to the visitor (same analysis as O13.14)"
